@@ -124,9 +124,6 @@ def run(case):
     if K.skip("C03-rdfxml-illformed-names", fmt in ("xml", "pretty-xml") and any(xml_name_hazard(t[1][1]) for t in triples), out):
         return out
     feats0 = case.get("feats", [])
-    # (urljoin, which the RDF/XML parser resolves with, drops an empty query, empty parameters and empty path segments)
-    if K.skip("C03-jsonld-odd-lists", fmt == "json-ld" and any(f.startswith("list:") and f not in ("list:ok", "list:nested", "list:bnode-members") for f in feats0), out):
-        return out
     kw = {}
     if case.get("base"):
         kw["base"] = case["base"]
